@@ -158,10 +158,10 @@ def c14(c):
     if not quick:   # the other filter policy is sound as well
         jobs += [_exh(c, 'Delta', 'Delta', _variant(c, 'Delta', x, not withhold)) for x in ['quick_rec.cfg', 'quick_np.cfg']]
     nj = len(jobs)
-    jobs += [_witness(c, 'Delta', 'Delta', v('ascoded.cfg')), _sim(c, 'Delta', 'DeltaSim', v('sim.cfg'), 600 if quick else 8000, 30)]
+    jobs += [_witness(c, 'Delta', 'Delta', v('ascoded.cfg')), _sim(c, 'Delta', 'DeltaSim', v('sim.cfg'), 600 if quick else 6000, 30)]
     # keyed path: behaviours of spec/SharedPoll (per-key deltaReady / version / base version), delta monitors only
     c._specdir('SharedPoll')
-    jobs += [_sim(c, 'SharedPoll', 'SharedPollSim', 'sim_v.cfg', 80 if quick else 1500, 50)]
+    jobs += [_sim(c, 'SharedPoll', 'SharedPollSim', 'sim_v.cfg', 80 if quick else 800, 50)]
     # map paths: per-key bases (sequential model of the map subscribe protocol outcomes)
     jobs += [_exh(c, 'Delta', 'DeltaMap', 'map_quick.cfg'), _witness(c, 'Delta', 'DeltaMap', 'map_ascoded.cfg'),
              _sim(c, 'Delta', 'DeltaMap', 'map_sim.cfg', 150 if quick else 3000, 30)]
